@@ -702,3 +702,12 @@ META = {
         "argument of DESIGN 3.4",
     ],
 }
+
+
+# ---- start_detached, shared-state life cycle of split / ensure_started / split_tuple, constructors / start / connect of the
+# ---- adaptors, sync_wait: second sub-agent ---------------------------------------------------------------------------------
+exec(open("/verif/specs/C03/rest_spec.py").read())
+UNITS += REST_UNITS
+for _k in ("trusted_base", "assumptions", "not_decided"):
+    META[_k] = list(META.get(_k, [])) + list(REST_META.get(_k, []))
+STATIC = list(globals().get("STATIC", [])) + list(REST_STATIC)
